@@ -102,7 +102,10 @@ def ref_coerce(lit, ty, D, depth=0):
     if name == "Float":
         if k not in ("int", "float"):
             raise Invalid("Float")
-        return {"$float": repr(float(lit["v"]))}
+        r = repr(float(lit["v"]))
+        if r in ("inf", "-inf", "nan"):
+            raise Invalid("Float not finite")
+        return {"$float": r}
     if name == "String":
         if k != "str":
             raise Invalid("String")
@@ -133,6 +136,8 @@ def ref_coerce(lit, ty, D, depth=0):
         given = {}
         for f in lit["fs"]:
             given[f["name"]] = f["value"]      # last one wins (dict)
+        if any(n not in [f["name"] for f in td["fields"]] for n in given):
+            raise Invalid("undefined field")
         out = {}
         for f in td["fields"]:
             if f["name"] in given:
@@ -306,6 +311,8 @@ def decorate(rng, D, rich=True):
         for x in walk():
             if x.get("desc") is not None and rng.random() < 0.5:
                 x["desc"] = rng.choice(DESCS)
+            if x.get("deprecated") not in (None, "No longer supported") and rng.random() < 0.4:
+                x["deprecated"] = rng.choice(["vieux \u00e9 \u2713", "say \"no\"", "astral \U0001F600 x", "tab\tand\\slash"])
     return D
 
 
